@@ -245,6 +245,11 @@ def t_g5(ctx: Ctx, rule: str) -> None:
     defs = [n for n in ast.walk(fn.node) if isinstance(n, ast.Assign)
             and any(isinstance(t, ast.Name) and t.id == "unexplored_nodes" for t in n.targets)]
     ok = False
+    # later definitions may only widen the list (`unexplored_nodes = unexplored_nodes or [...]`): more postponement, never less
+    widening = [d for d in defs[1:] if isinstance(d.value, ast.BoolOp) and isinstance(d.value.op, ast.Or)
+                and isinstance(d.value.values[0], ast.Name) and d.value.values[0].id == "unexplored_nodes"]
+    if defs and len(widening) == len(defs) - 1:
+        defs = defs[:1]
     if len(defs) == 1 and isinstance(defs[0].value, ast.ListComp) and len(defs[0].value.generators) == 1:
         gen = defs[0].value.generators[0]
         it = ast.unparse(gen.iter)
